@@ -4,10 +4,11 @@ From GL Require Import Common.Bytes Chan.ChanModel Chan.ChanSpec.
 Inductive case :=
 (* a history of channel operations issued by several LStates, as logged by the harness *)
 | CHist (caps : list Z) (log : list event)
-(* non-interference run: digest of the sequential trace, digests of the traces of the concurrent
-   states, digest of the shared prototype before and after (testing part of C13; Coq only
-   compares) *)
-| CIso (seqd : list Z) (conc : list (list Z)) (h0 h1 : list Z)
+(* non-interference run: for each concurrent state the digest of the trace the same program
+   variant gives alone on a private prototype (expd) and the digest of its trace on the shared
+   prototype (conc); digest of the shared prototype before and after (testing part of C13; Coq
+   only compares) *)
+| CIso (expd : list (list Z)) (conc : list (list Z)) (h0 h1 : list Z)
 (* two states use a table after it was sent through a channel (known finding C13-1): was a data
    race on the table observed? *)
 | CShare (raced : bool).
@@ -18,7 +19,7 @@ Definition zlist_eqb (a b : list Z) : bool := list_eqb Z.eqb a b.
 Definition check_impl (c : case) : bool :=
   match c with
   | CHist caps log => trace_ok caps log
-  | CIso s conc h0 h1 => forallb (zlist_eqb s) conc && zlist_eqb h0 h1
+  | CIso e conc h0 h1 => list_eqb zlist_eqb e conc && zlist_eqb h0 h1
   (* channels pass tables by reference (the filter only refuses what payload_filter lists): the
      model of the code allows either outcome of the schedule-dependent race *)
   | CShare _ => true
@@ -28,6 +29,6 @@ Definition check_impl (c : case) : bool :=
 Definition check_spec (c : case) : bool :=
   match c with
   | CHist caps log => spec_log caps log
-  | CIso s conc h0 h1 => forallb (zlist_eqb s) conc && zlist_eqb h0 h1
+  | CIso e conc h0 h1 => list_eqb zlist_eqb e conc && zlist_eqb h0 h1
   | CShare raced => negb raced      (* no data race on interpreter-owned memory *)
   end.
